@@ -1992,6 +1992,14 @@ func (sa *Application) removeAllocationInternal(allocationKey string, releaseTyp
 				}
 				eventWarning = "Application state not changed while removing a placeholder allocation"
 			}
+			// the shim confirmed a replacement: the real allocation that takes the place of this placeholder is added
+			// right after this removal, the application is not empty. Completing it here moved an application that was
+			// already Completing (its last real allocation left while the replacement was in flight) to Completed and
+			// orphaned the replacement.
+			if releaseType == si.TerminationType_PLACEHOLDER_REPLACED && alloc.GetRelease() != nil && event == CompleteApplication {
+				event = EventNotNeeded
+				removeApp = false
+			}
 		}
 		// Aggregate the resources used by this alloc to the application's resource tracker
 		sa.trackCompletedResource(alloc)
